@@ -183,7 +183,11 @@ func c20prop(r *simkit.Run) {
 		iv := i == intervene
 		switch k {
 		case "stream":
-			s, err := stream.New(h)
+			var stOpts []stream.Option
+			if rapid.IntRange(0, 2).Draw(rt, "logger") == 0 {
+				stOpts = append(stOpts, stream.Logger(simkit.SlowLogger{}), stream.Verbose(rapid.Bool().Draw(rt, "verbose")))
+			}
+			s, err := stream.New(h, stOpts...)
 			must(err)
 			h = s
 		case "trace":
@@ -196,7 +200,11 @@ func c20prop(r *simkit.Run) {
 			if iv {
 				lim = int64(rapid.IntRange(1, 3).Draw(rt, "conn-limit"))
 			}
-			c, err := connlimit.New(h, extract, lim)
+			var clOpts []connlimit.Option
+			if rapid.IntRange(0, 2).Draw(rt, "logger") == 0 {
+				clOpts = append(clOpts, connlimit.Logger(simkit.SlowLogger{}), connlimit.Verbose(rapid.Bool().Draw(rt, "verbose")))
+			}
+			c, err := connlimit.New(h, extract, lim, clOpts...)
 			must(err)
 			h = c
 		case "ratelimit":
@@ -206,7 +214,11 @@ func c20prop(r *simkit.Run) {
 			} else {
 				must(rs.Add(time.Second, 1000, 1000))
 			}
-			tl, err := ratelimit.New(h, extract, rs)
+			var tlOpts []ratelimit.TokenLimiterOption
+			if rapid.IntRange(0, 2).Draw(rt, "logger") == 0 {
+				tlOpts = append(tlOpts, ratelimit.Logger(simkit.SlowLogger{}))
+			}
+			tl, err := ratelimit.New(h, extract, rs, tlOpts...)
 			must(err)
 			h = tl
 		case "cbreaker":
@@ -214,7 +226,11 @@ func c20prop(r *simkit.Run) {
 			if iv {
 				cond = "NetworkErrorRatio() > 0.5"
 			}
-			cb, err := cbreaker.New(h, cond, cbreaker.CheckPeriod(time.Millisecond), cbreaker.FallbackDuration(time.Minute), cbreaker.RecoveryDuration(time.Minute))
+			cbOpts := []cbreaker.Option{cbreaker.CheckPeriod(time.Millisecond), cbreaker.FallbackDuration(time.Minute), cbreaker.RecoveryDuration(time.Minute)}
+			if rapid.IntRange(0, 2).Draw(rt, "logger") == 0 {
+				cbOpts = append(cbOpts, cbreaker.Logger(simkit.SlowLogger{}), cbreaker.Verbose(rapid.Bool().Draw(rt, "verbose")))
+			}
+			cb, err := cbreaker.New(h, cond, cbOpts...)
 			must(err)
 			l.cb = cb
 			h = cb
@@ -248,6 +264,9 @@ func c20prop(r *simkit.Run) {
 			h = rb
 		case "buffer":
 			opts := []buffer.Option{buffer.MemRequestBodyBytes(8), buffer.MemResponseBodyBytes(8)}
+			if rapid.IntRange(0, 2).Draw(rt, "logger") == 0 {
+				opts = append(opts, buffer.Logger(simkit.SlowLogger{}), buffer.Verbose(rapid.Bool().Draw(rt, "verbose")))
+			}
 			if iv {
 				opts = append(opts, buffer.MaxRequestBodyBytes(16))
 			}
